@@ -22,14 +22,14 @@ def obligations(tier):
         o.append(ob)
     # O2 reader reconstruction, block level (harness/c15_recon.c).  The window-level variant (harness/c15_reader.c, whole jls_core_fsr over 3 blocks) ran out of
     # memory for u8 and returned a non-reproducing counterexample for u4 -> props/_unclaimed_C15_O2.txt.
-    for bits in ([8, 4] if tier == 'quick' else [8, 4, 1]):
+    for bits, omit in ([(8, 1), (4, 1), (8, 2), (4, 2)] if tier == 'quick' else [(8, 1), (4, 1), (1, 1), (8, 2), (4, 2), (1, 2)]):
         blk = (16 * bits) // 8
-        o.append(Obl('O2_block_load_w%d' % bits, 'c15_recon.c', units=['core.c', 'buffer.c'], seams={'core.c': ['jls_core_rd_fsr_level1', 'jls_core_rd_chunk']},
+        o.append(Obl('O2_block_load_w%d%s' % (bits, '' if omit == 1 else '_omitted_last'), 'c15_recon.c', units=['core.c', 'buffer.c'], seams={'core.c': ['jls_core_rd_fsr_level1', 'jls_core_rd_chunk']},
                      stubs=['log_stub.c', 'fp_stub.c'],
                      defines=['JLS_VERIF_SIGNAL_COUNT=2', 'JLS_VERIF_SOURCE_COUNT=2', 'JLS_VERIF_FSR_BUFFER_U64=2', 'JLS_VERIF_BUF_DEFAULT_SIZE=160', 'JLS_VERIF_BUF_STRING_SIZE=16',
-                              'BITS=%d' % bits],
+                              'BITS=%d' % bits, 'OMIT=%d' % omit],
                      unwind=max(3 * blk + 4, 12), typed_calloc=True, timeout=600 if tier == 'quick' else 2400, backend=PORTFOLIO, objbits=10,
-                     desc=('jls_core_rd_fsr_data0 for any sample of a 3-block u%d signal (stored, automatically omitted constant block, stored): the loaded block is the block of that sample '
+                     desc=('jls_core_rd_fsr_data0 for any sample of a 3-block u%d signal (stored, automatically omitted constant block, stored; "_omitted_last": stored, stored, omitted -- the summary chunk ends with the omitted block): the loaded block is the block of that sample '
                            '(first sample id = block start also for an unaligned request into the omitted block, full count, width); bytes of stored blocks are the written ones') % bits,
                      bound='3 blocks of 16 samples; symbolic requested sample, first sample id, stored bytes and constant',
                      assumes=['level-1 index/summary provided at the jls_core_rd_fsr_level1 seam with mean = constant for the omitted block (what the writer stores, C02)',
